@@ -230,6 +230,9 @@ type world struct {
 	profiles []string
 	fatal    string
 	abandon  bool // the current history lost a unit record to a kill (not this property's business)
+	// midSubmit, when set, runs between the "created" reply of a submission and the end of its input
+	// data (fault.go: the status writes that follow are made to fail)
+	midSubmit func(id string)
 }
 
 func freePort() int {
@@ -496,6 +499,9 @@ func (w *world) submit(node, wtype, tls, ttl string, params map[string]string) (
 	created := ""
 	if i := strings.Index(l, "with ID "); i >= 0 && !strings.HasPrefix(l, "ERROR") {
 		created = strings.TrimSuffix(strings.Fields(l[i+8:])[0], ".")
+		if w.midSubmit != nil {
+			w.midSubmit(created)
+		}
 		_ = s.send([]byte("payload\n"))
 		s.closeWrite()
 		if _, err := s.line(20 * time.Second); err != nil {
@@ -917,7 +923,7 @@ func checkUnicodeAssumption(im *Impl) {
 
 func runC19(c *Ctx) {
 	im := NewImpl("C19", c.Seed, c.Tier)
-	im.Rule = "key cases: byte strings around the prefix (case variants, near misses, non-ASCII and invalid UTF-8 inside the prefix), Go expression vs is_secret; histories: 1-4 remote submissions with generated parameter maps (values = unique markers; secret values carry the marker ZQS) to a reachable TLS node or an absent node, with tlsclient in {none, known, unknown} and ttl in {none, valid, unparsable}, then 3-9 random status/list/list-one/cancel/release/restart operations and a final list + status of every unit; non-trivial = at least one submitted map contains a secret key; distinct by full history"
+	im.Rule = "key cases: byte strings around the prefix (case variants, near misses, non-ASCII and invalid UTF-8 inside the prefix), Go expression vs is_secret; histories: 1-4 remote submissions with generated parameter maps (values = unique markers; secret values carry the marker ZQS) to a reachable TLS node or an absent node, with tlsclient in {none, known, unknown} and ttl in {none, valid, unparsable}, then 3-9 random status/list/list-one/cancel/release/restart operations and a final list + status of every unit; non-trivial = at least one submitted map contains a secret key; distinct by full history; " + faultRule
 	cf := &CaseFile{Dir: c.Out, Prop: "C19", Imports: []string{"Model.Secrets"}, CaseType: "secrets_case", CheckFn: "secrets_check", PerShard: 300}
 	r := c.Rng
 	checkUnicodeAssumption(im)
@@ -960,6 +966,9 @@ func runC19(c *Ctx) {
 			im.Violate("a daemon died during the run", "daemon-died", nil)
 			break
 		}
+	}
+	if w.fatal == "" {
+		w.faultPhase(cf)
 	}
 	if w.fatal == "" {
 		w.kubePhase(cf)
